@@ -418,6 +418,7 @@ def run(ctx, rep):
     modules_are_not_left_by_return(F, rep)
     exports_are_registered_by_module_level_code(F, rep)
     names_import_supplies_what_it_binds(F, rep)
+    entry_is_spelled_like_an_import(ctx, rep)
     # `import typed from m` imports the name `typed`, not the type `d`
     from props import _keywords
     rep.floor("C11.keyword-boundary import keywords judged", _keywords.run(F, rep, "C11.keyword-boundary", only={"import_type", "import_standard", "import_names"}), 3)
@@ -765,3 +766,78 @@ def names_import_supplies_what_it_binds(F, rep, rule="C11.names-import"):
     rep.ob(rule, "import_names keeps (and so supplies) the very identifier it binds in the scope", "ok" if ok else "violated",
            "" if ok else "bound: locals %s, kept: locals %s - a class imported by name inside a function is bound as its constructor but supplied as the class, so the function "
                          "tries to capture it" % (sorted(bound), sorted(kept)), (pushes[0].span if pushes else g.span), fn=g.path, key=rule + "|same-ident")
+
+
+def entry_is_spelled_like_an_import(ctx, rep, rule="C11.module-identity"):
+    """A module is one instance per *spelling* of its path (the compile-time registry and the run-time `<path>#__module__` key are strings).  Imports
+    drop the `.` components of what they spell (C11.module-identity|feature), so the file named on the command line has to be spelled the same
+    way before it becomes a key: otherwise `execute ./main.mmm` runs `main.mmm` a second time when one of its modules imports `main`.  In the
+    CLI (`mscript::main` and its closures) every path handed to Program::new or to the compile entry comes out of a function that walks
+    `Path::components` and tests `Component::CurDir` (or canonicalises on both sides)."""
+    F = ctx.facts("default", ["mscript-bin", "bytecode", "compiler"])
+    m = F.fn("mscript::main")
+    if m is None:
+        raise AnchorMissing("mscript::main")
+    root = [f for f in F.all_fns() if f.path.startswith("mscript::")]
+    normalisers = set()
+    for f in root:
+        if f.kind == "Closure":
+            continue
+        bodies = [f] + F.closures_of(f)
+        comps = any(b.calls_to("std::path::Path::components") for b in bodies)
+        curdir = False
+        for b in bodies:
+            for body in b.d.get("promoted", []) or []:
+                for blk in body.get("blocks", []):
+                    for s_ in blk.get("s", []):
+                        rv = s_.get("rv", {})
+                        if "agg" in rv and rv["agg"].get("adt", "").endswith("path::Component") and rv["agg"].get("v") == "CurDir":
+                            curdir = True
+            for blk in b.blocks:
+                t = blk["t"]
+                if t["k"] == "switch":
+                    for s_ in blk["s"]:
+                        if "d" in s_ and "discr" in s_["rv"] and "path::Component" in b.locals[s_["rv"]["discr"]["l"]]:
+                            curdir = True
+        if comps and curdir:
+            normalisers.add(f.path)
+    bodies = [m] + F.closures_of(m)
+    thr = rules.TRANSPARENT | {rules.TRY_BRANCH, "alloc::string::String::as_str", "core::ops::deref::Deref::deref", "alloc::borrow::ToOwned::to_owned", "core::clone::Clone::clone"}
+
+    def sources(g, l, depth=0):
+        """origin calls of local l of g, following a captured variable into the function that built the closure"""
+        out = list(rules.origin_calls(g, l, transparent=thr))
+        for o, fs in rules.trace_paths(g, l, transparent=thr):
+            if o[0] == "arg" and o[1] == 1 and g.kind == "Closure" and fs and depth < 3:
+                idx = None
+                for x in fs:
+                    if isinstance(x, str) and x.isdigit():
+                        idx = int(x)
+                        break
+                for parent in bodies:
+                    for bi, si, dst, rv, s_ in parent.assigns():
+                        if "agg" in rv and rv["agg"].get("k") == "closure" and rv["agg"].get("def") == g.path and idx is not None and idx < len(rv["ops"]):
+                            pl = op_local(rv["ops"][idx])
+                            if pl is not None:
+                                out += sources(parent, pl, depth + 1)
+        return out
+    n = 0
+    for g in bodies:
+        for c in g.calls():
+            if not c.matches(("bytecode::interpreter::Program::new", "mscript::compile")) or not c.args:
+                continue
+            l = op_local(c.args[0])
+            src = sources(g, l) if l is not None else []
+            # a path that is itself the result of another CLI step (the transpiler's output name) starts from a normalised path one step earlier
+            step = [x for x in src if x.matches("mscript::transpile_command")]
+            for x in step:
+                xl = op_local(x.args[0]) if x.args else None
+                src += sources(g, xl) if xl is not None else []
+            n += 1
+            okk = any(x.callee() in normalisers or (F.fn(x.callee()) is not None and F.fn(x.callee()).path in normalisers) for x in src)
+            rep.ob(rule, "the path the command line hands to %s is spelled the way imports spell theirs (no `.` components)" % mir.short(c.callee()),
+                   "ok" if okk else "violated",
+                   "" if okk else ("the path reaches %s as typed (from %s): `mscript execute ./main.mmm` registers the entry as `./main.mmm`, a module's `import main` names `main.mmm`, "
+                                   "and the entry's top level runs a second time" % (mir.short(c.callee()), sorted({mir.short(x.callee()) for x in src}) or "the arguments")),
+                   c.span, fn=g.path, key="%s|entry|%s|%s" % (rule, mir.short(g.path).split("::")[-1], mir.short(c.callee())))
+    rep.floor(rule + " entry paths handed on by the CLI", n, 3)
